@@ -42,9 +42,8 @@ Fixpoint digits_val (cs : list N) (acc : Z) : option Z :=
 (* None = strconv.ErrSyntax / ErrRange, reported by the library as ErrorInvalidArgument *)
 Definition atoi (cs : list N) : option Z :=
   let '(neg, ds) := match cs with
-                    | 45 :: r => (true, r)
-                    | 43 :: r => (false, r)
-                    | _ => (false, cs)
+                    | c :: r => if c =? 45 then (true, r) else if c =? 43 then (false, r) else (false, cs)
+                    | [] => (false, cs)
                     end in
   match ds with
   | [] => None
@@ -59,9 +58,13 @@ Definition atoi (cs : list N) : option Z :=
    (`.` does not match a newline; a trailing backslash stays) ---------- *)
 Fixpoint unescape_cps (cs : list N) : list N :=
   match cs with
-  | 92 :: ((c :: r) as tl) =>
-      if c =? 10 then 92 :: unescape_cps tl else c :: unescape_cps r
-  | c :: r => c :: unescape_cps r
+  | c0 :: tl =>
+      if c0 =? 92 then
+        match tl with
+        | c :: r => if c =? 10 then 92 :: unescape_cps tl else c :: unescape_cps r
+        | [] => [92]
+        end
+      else c0 :: unescape_cps tl
   | [] => []
   end.
 
@@ -86,44 +89,49 @@ Fixpoint json_unquote (fuel : nat) (bs : list N) : option (list N) :=
   | S f =>
       match bs with
       | [] => Some []
-      | 92 :: e :: r =>
-          let simple := fun (b : N) => option_map (cons b) (json_unquote f r) in
-          if e =? 34 then simple 34
-          else if e =? 92 then simple 92
-          else if e =? 47 then simple 47
-          else if e =? 98 then simple 8
-          else if e =? 102 then simple 12
-          else if e =? 110 then simple 10
-          else if e =? 114 then simple 13
-          else if e =? 116 then simple 9
-          else if e =? 117 then
-            match r with
-            | a :: b :: c :: d :: r1 =>
-                match hex4 a b c d with
-                | None => None
-                | Some u =>
-                    if is_hi_surr u then
-                      match r1 with
-                      | 92 :: 117 :: a2 :: b2 :: c2 :: d2 :: r2 =>
-                          match hex4 a2 b2 c2 d2 with
-                          | Some u2 =>
-                              if is_lo_surr u2 then
-                                option_map (app (utf8_cp (65536 + (u - 55296) * 1024 + (u2 - 56320))))
-                                           (json_unquote f r2)
-                              else option_map (app (utf8_cp 65533)) (json_unquote f r1)
-                          | None => None
-                          end
-                      | _ => option_map (app (utf8_cp 65533)) (json_unquote f r1)
+      | c :: r0 =>
+          if c =? 92 then
+            match r0 with
+            | [] => None
+            | e :: r =>
+                let simple := fun (b : N) => option_map (cons b) (json_unquote f r) in
+                if e =? 34 then simple 34
+                else if e =? 92 then simple 92
+                else if e =? 47 then simple 47
+                else if e =? 98 then simple 8
+                else if e =? 102 then simple 12
+                else if e =? 110 then simple 10
+                else if e =? 114 then simple 13
+                else if e =? 116 then simple 9
+                else if e =? 117 then
+                  match r with
+                  | a :: b :: c2 :: d :: r1 =>
+                      match hex4 a b c2 d with
+                      | None => None
+                      | Some u =>
+                          if is_hi_surr u then
+                            match r1 with
+                            | x1 :: x2 :: a2 :: b2 :: c3 :: d2 :: r2 =>
+                                if (x1 =? 92) && (x2 =? 117) then
+                                  match hex4 a2 b2 c3 d2 with
+                                  | Some u2 =>
+                                      if is_lo_surr u2 then
+                                        option_map (app (utf8_cp (65536 + (u - 55296) * 1024 + (u2 - 56320))))
+                                                   (json_unquote f r2)
+                                      else option_map (app (utf8_cp 65533)) (json_unquote f r1)
+                                  | None => None
+                                  end
+                                else option_map (app (utf8_cp 65533)) (json_unquote f r1)
+                            | _ => option_map (app (utf8_cp 65533)) (json_unquote f r1)
+                            end
+                          else option_map (app (utf8_cp u)) (json_unquote f r1)   (* utf8_cp maps a lone low surrogate to U+FFFD *)
                       end
-                    else option_map (app (utf8_cp u)) (json_unquote f r1)   (* utf8_cp maps a lone low surrogate to U+FFFD *)
-                end
-            | _ => None
+                  | _ => None
+                  end
+                else None
             end
-          else None
-      | [92] => None
-      | c :: r =>
-          if (c <? 32) || (c =? 34) then None
-          else option_map (cons c) (json_unquote f r)
+          else if (c <? 32) || (c =? 34) then None
+          else option_map (cons c) (json_unquote f r0)
       end
   end.
 
